@@ -834,6 +834,49 @@ func TestC07(t *testing.T) {
 			both(t, Case{Sessions: 1, Msgs: []*Msg{m}})
 		}
 	}
+	// sweeps over single well-aimed changes that the drawn mutations reach only now and then
+	{
+		bases := baseMessages(nodeIDPlaceholder, []uint64{2})
+		// (a) the header's length field of an Establishment Request: small values, the sign boundary, the top of the range
+		for _, l := range []int{0, 1, 3, 4, 8, 11, 12, 13, 16, 0x7fff, 0x8000, 0xfff0, 0xfff8, 0xfffb, 0xfffc, 0xfffd, 0xfffe, 0xffff} {
+			m := fromBytes(bases[7])
+			m.From, m.LenSet = 0, l
+			m.Muts = []string{fmt.Sprintf("hdr-len-sweep-%#x", l)}
+			both(t, Case{Sessions: 1, Msgs: []*Msg{m}})
+		}
+		// (b) every response type, carrying the number of a report request that waits for its response, lacking one of its IEs
+		for _, bi := range []int{11, 12, 15, 16, 17, 18, 19, 20} {
+			n := len(fromBytes(bases[bi]).IEs)
+			for drop := -1; drop < n; drop++ {
+				m := fromBytes(bases[bi])
+				m.From, m.Seq = 0, 0
+				if drop >= 0 {
+					m.IEs = append(m.IEs[:drop:drop], m.IEs[drop+1:]...)
+				}
+				m.Muts = []string{fmt.Sprintf("response-%d-without-ie-%d", bi, drop)}
+				both(t, Case{Sessions: 1, Outstanding: 1, Msgs: []*Msg{m}})
+			}
+		}
+		// (c) flow descriptions cut after every token (well-formed SDF Filter IE), real driver
+		for _, txt := range []string{"permit out ip from 10.1.0.0/16 80,443 to assigned 1000-2000", "permit in 17 from any 53 to 10.0.0.1 1-2,3", "permit out 6 from assigned to any"} {
+			toks := strings.Fields(txt)
+			for cut := 0; cut <= len(toks); cut++ {
+				part := strings.Join(toks[:cut], " ")
+				m := fromBytes(bases[7])
+				var nodes []*Node
+				all(m.IEs, &nodes)
+				for _, nd := range nodes {
+					if nd.Type == ie.SDFFilter && !nd.Grouped {
+						nd.Val = append([]byte{0x01, 0x00, byte(len(part) >> 8), byte(len(part))}, part...)
+					}
+				}
+				m.From = 0
+				m.Muts = []string{fmt.Sprintf("sdf-cut-sweep-%d", cut)}
+				both(t, Case{Sessions: 1, Msgs: []*Msg{m}})
+			}
+		}
+		vcore.E.Class("single_change_sweeps")
+	}
 	// structure-aware
 	vcore.Check(t, vcore.N(1500, 12000), func(rt *rapid.T) {
 		c := Case{Sessions: rapid.IntRange(0, 3).Draw(rt, "sessions")}
